@@ -163,6 +163,8 @@ class World:
             kw = {"name": a["n"], "parent": self.ent(a["p"])}
             if act == "CreateWithUid":
                 kw["uid"] = self.slot2uid.get(s) or uuid.uuid4()
+                if self.variant % 3 == 1:
+                    kw["uid"] = str(kw["uid"])        # identifiers may be given as text
             if kind(s) == "G":
                 e = self.group_class(s).create(ws, **kw)
             else:
@@ -250,6 +252,11 @@ class World:
             o = self.ent(a["o"])
             pgr = o.add_data_to_group([self.ent(a["d"])], a["n"])
             self.pg2uid[int(a["p"])] = pgr.uid
+        elif act == "PGWithUid":
+            o = self.ent(a["o"])
+            u = int(a["u"])
+            uid = self.pg2uid[u] if kind(u) == "P" else self.slot2uid[u]
+            o.create_property_group(name=a["n"], uid=uid, properties=[self.ent(a["d"]).uid])
         elif act == "RemoveFromGroup":
             o = self.ent(a["o"])
             pgr = [g for g in (o.property_groups or []) if g.uid == self.pg2uid[int(a["p"])]][0]
@@ -296,6 +303,7 @@ class World:
                 self.w2side.pop(k)
             self.ws2.remove_entity(e)
             del e
+            gc.collect()       # the schedule in which the removed copies are reclaimed before the next operation
         elif act == "Close":
             self.closed_tree = self.live_tree()
             how = a["how"]
